@@ -841,8 +841,8 @@ theorem norm_main (c c' : Cfg) (hp : ReparseParams c c') (s : Str) (i : URLInfo)
     (n : Str) (hparse : parse c s = .ok i) (hnet : netScheme? i.scheme = some (sch, dp))
     (hurl : i.url = .ok n)
     (hprint : ∀ hn, i.hostname = some hn → ∀ x ∈ hn, 0x20 < x) :
-    ∃ j, parse c' n = .ok j ∧ j.url = .ok n ∧ j.scheme = i.scheme ∧ j.hostname = i.hostname ∧
-      j.port = i.port ∧ j.path = i.path ∧ j.query = i.query := by
+    (∃ j, parse c' n = .ok j ∧ j.url = .ok n ∧ j.scheme = i.scheme ∧ j.hostname = i.hostname ∧
+      j.port = i.port ∧ j.path = i.path ∧ j.query = i.query) ∧ ∀ x ∈ n, 0x20 < x ∧ x < 0x80 := by
   obtain ⟨host, hn, un, pw, p1, q1, path, query, port0, a, b, hs, hun, hpw, hhost, hhn, hport, hpath,
     hquery, hph, hne, hnp, hnq, ha, hb⟩ := parse_net_inv hparse hnet
   have hnet' : netScheme? (some sch) = some (sch, dp) := by rw [hs] at hnet; exact hnet
@@ -1016,7 +1016,7 @@ theorem norm_main (c c' : Cfg) (hp : ReparseParams c c') (s : Str) (i : URLInfo)
       simp [e, this, effPort]
   rw [hportj] at hpn
   rw [hpn] at hparse2
-  refine ⟨_, hparse2, ?_, ?_⟩
+  refine ⟨⟨_, hparse2, ?_, ?_⟩, hnchars⟩
   · -- its normal form
     refine (url_shape (sch := sch) (un := un) (pw := pw) (host := H ++ P) (hn := hn)
       (path := path) (query := query) (a := a) (b := b) (dp := dp) (port := port)
@@ -1033,6 +1033,259 @@ theorem norm_main (c c' : Cfg) (hp : ReparseParams c c') (s : Str) (i : URLInfo)
     rfl
   · simp only [hs, hhn, hport, hpath, hquery]
     exact ⟨trivial, trivial, trivial, trivial, trivial⟩
+
+/-! ## the host name holds no control character or space -/
+
+/-- no C0 control character (what `parse` tests on the stripped text) -/
+def NoCtl (s : Str) : Prop := ∀ x ∈ s, 0x1f < x
+
+/-- what is assumed about the parameters for `host_printable`: none of them introduces a
+control character or space (CPython's `str.lower`, the `idna` codec, `IPv6Address.compressed`,
+and the caller's `default_scheme`) -/
+structure PrintParams (c : Cfg) : Prop where
+  ds : ∀ d, c.defaultScheme = some d → NoCtl d
+  lower : ∀ t, NoCtl t → NoCtl (c.lowerNA t)
+  idna : ∀ t b, c.idnaNA t = .ok b → NoCtl b
+  ipv6 : ∀ x y, c.ipv6 x = .ok y → ∀ ch ∈ y, 0x20 < ch
+
+theorem partition1_sub (c : Nat) : ∀ (s : List Nat) (x : Nat),
+    (x ∈ (partition1 c s).1 → x ∈ s) ∧ (x ∈ (partition1 c s).2.2 → x ∈ s)
+  | [], x => by simp [partition1]
+  | a :: t, x => by
+    unfold partition1
+    split
+    · simp only [List.not_mem_nil, false_imp_iff, true_and]
+      intro h; exact List.mem_cons_of_mem _ h
+    · have ih := partition1_sub c t x
+      simp only [List.mem_cons]
+      exact ⟨fun h => h.elim Or.inl (fun h => Or.inr (ih.1 h)), fun h => Or.inr (ih.2 h)⟩
+
+theorem rpartition1_sub (c : Nat) (s : List Nat) (x : Nat) :
+    (x ∈ (rpartition1 c s).1 → x ∈ s) ∧ (x ∈ (rpartition1 c s).2.2 → x ∈ s) := by
+  unfold rpartition1
+  simp only
+  have ih := partition1_sub c s.reverse x
+  split
+  · simp only [List.mem_reverse]
+    exact ⟨fun h => by simpa using ih.2 h, fun h => by simpa using ih.1 h⟩
+  · simp
+
+theorem asciiLower_noctl {x : Nat} (h : 0x1f < x) : 0x1f < asciiLower x := by
+  unfold asciiLower; split <;> omega
+
+/-- the scheme decisions keep the text free of control characters -/
+theorem schemeSplit_noctl {c : Cfg} (hp : PrintParams c) {url : Str} (hu : NoCtl url)
+    {sc : Option Str} {rem : Str} (h : schemeSplit c url = .ok (sc, rem)) : NoCtl rem := by
+  have hlow : NoCtl (pyLower c (partition1 58 url).1) := by
+    have h1 : NoCtl (partition1 58 url).1 := fun x hx => hu x ((partition1_sub 58 url x).1 hx)
+    unfold pyLower
+    split
+    · intro x hx
+      obtain ⟨y, hy, rfl⟩ := List.mem_map.mp hx
+      exact asciiLower_noctl (h1 y hy)
+    · exact hp.lower _ h1
+  have h2 : NoCtl (partition1 58 url).2.2 := fun x hx => hu x ((partition1_sub 58 url x).2 hx)
+  have hds : NoCtl (c.defaultScheme.getD []) := by
+    cases hd : c.defaultScheme with
+    | none => intro x hx; simp at hx
+    | some d => simpa using hp.ds d hd
+  unfold schemeSplit at h
+  simp only at h
+  split at h
+  · cases h
+  · split at h
+    · cases h
+    · by_cases hf : (partition1 58 url).2.1 = true
+      · simp only [hf, Bool.not_true, Bool.false_eq_true, if_false, Option.getD_some] at h
+        split at h
+        · cases h
+          intro x hx
+          simp only [List.mem_append, List.mem_cons, List.not_mem_nil, or_false] at hx
+          rcases hx with (hx | hx) | hx
+          · exact hlow x hx
+          · omega
+          · exact h2 x hx
+        · cases h; exact h2
+      · simp only [hf, Bool.not_false, if_true] at h
+        split at h
+        · cases h
+          intro x hx
+          simp only [List.mem_append, List.mem_cons, List.not_mem_nil, or_false] at hx
+          rcases hx with (hx | hx) | hx
+          · exact hds x hx
+          · omega
+          · exact hu x hx
+        · cases h; exact hu
+
+theorem parseAuthority_sub (a : Str) (x : Nat) (h : x ∈ (parseAuthority a).2) : x ∈ a := by
+  unfold parseAuthority at h
+  simp only at h
+  split at h
+  · exact (partition1_sub 64 a x).2 h
+  · exact (partition1_sub 64 a x).1 h
+
+theorem splitRem_auth_sub (rem : Str) (x : Nat) (h : x ∈ (splitRem rem).authority) : x ∈ rem := by
+  unfold splitRem at h
+  simp only at h
+  exact List.mem_of_mem_take h
+
+/-- the host text `parseNet` hands to `parse_host` is part of `remaining` -/
+theorem parseNet_host {c : Cfg} {url scheme rem0 : Str} {dp : Nat} {i : URLInfo}
+    (h : parseNet c url scheme rem0 dp = .ok i) :
+    ∃ host hn port0, i.hostname = some hn ∧ parseHost c host = .ok (hn, port0) ∧ ∀ x ∈ host, x ∈ rem0 := by
+  unfold parseNet at h
+  simp only at h
+  split at h
+  · cases h
+  · rename_i hostname port hph
+    have hsub : ∀ x ∈ (parseAuthority (splitRem (if startsWith rem0 [47, 47] = true then List.drop 2 rem0 else rem0)).authority).2,
+        x ∈ rem0 := by
+      intro x hx
+      have h2 := splitRem_auth_sub _ x (parseAuthority_sub _ x hx)
+      split at h2
+      · exact List.mem_of_mem_drop h2
+      · exact h2
+    split at h
+    · cases h
+    · split at h
+      · cases h
+      · split at h
+        · cases h
+        · split at h
+          · cases h
+          · split at h
+            · cases h
+            · split at h
+              · cases h
+              · cases h
+                exact ⟨_, hostname, port, rfl, hph, hsub⟩
+
+theorem parseHost_arg_sub {c : Cfg} {host hn : Str} {port0 : Option Nat}
+    (h : parseHost c host = .ok (hn, port0)) :
+    ∃ arg, parseHostname c arg = .ok hn ∧ ∀ x ∈ arg, x ∈ host := by
+  unfold parseHost at h
+  split at h
+  · split at h
+    · cases h
+    · rename_i x hx; cases h; exact ⟨host, hx, fun _ h => h⟩
+  · simp only at h
+    split at h
+    · split at h
+      · cases h
+      · split at h
+        · cases h
+        · split at h
+          · cases h
+          · rename_i x hx; cases h
+            exact ⟨_, hx, fun y hy => (rpartition1_sub 58 host y).1 hy⟩
+    · split at h
+      · cases h
+      · rename_i x hx; cases h
+        exact ⟨_, hx, fun y hy => (rpartition1_sub 58 host y).2 hy⟩
+
+theorem parseHostname_print {c : Cfg} (hp : PrintParams c) {arg hn : Str} (ha : NoCtl arg)
+    (h : parseHostname c arg = .ok hn) : ∀ x ∈ hn, 0x20 < x := by
+  cases hb : startsWith arg [91] with
+  | true =>
+    unfold parseHostname at h
+    rw [hb] at h
+    simp only [if_true] at h
+    unfold parseIpv6Hostname at h
+    split at h
+    · cases h
+    · split at h
+      · cases h
+      · exact hp.ipv6 _ _ h
+  | false =>
+    have hchars := hostname_lower_ascii c hb h
+    unfold parseHostname at h
+    rw [hb] at h
+    simp only [Bool.false_eq_true, if_false] at h
+    split at h
+    · cases h
+    · rename_i h1 hh1
+      split at h
+      · cases h
+      · rename_i h2 hh2
+        split at h
+        · cases h
+        · rename_i h3 hh3
+          split at h
+          · cases h
+          · cases h
+            intro x hx
+            have h32 : x ≠ 32 := by
+              intro e; subst e
+              have := (hchars 32 hx).2.2
+              simp [forbiddenHost] at this
+            suffices 0x1f < x by omega
+            -- h1 is free of control characters
+            have hn1 : NoCtl h1 := by
+              rcases tryIpv4_ok hh1 with h4 | ⟨rfl, _⟩
+              · obtain ⟨n, _, rfl⟩ := normalizeIpv4_ok h4
+                intro y hy; have := ipv4Compressed_chars n y hy; omega
+              · exact ha
+            -- so is h2 = lower(idna(h1))
+            have hn2 : NoCtl h2 := by
+              unfold normalizeHostname at hh2
+              split at hh2
+              · split at hh2 <;> cases hh2
+              · rename_i b hb'
+                have hbn : NoCtl b := by
+                  unfold idnaEncode at hb'
+                  split at hb'
+                  · cases hb'; intro y hy; cases hy
+                  · split at hb'
+                    · split at hb'
+                      · cases hb'; exact hn1
+                      · cases hb'
+                    · exact hp.idna _ _ hb'
+                have hmap : NoCtl (b.map asciiLower) := by
+                  intro y hy
+                  obtain ⟨z, hz, rfl⟩ := List.mem_map.mp hy
+                  exact asciiLower_noctl (hbn z hz)
+                split at hh2
+                · cases hh2
+                · simp only at hh2
+                  split at hh2
+                  · split at hh2
+                    · cases hh2
+                    · cases hh2; exact hmap
+                  · cases hh2; exact hmap
+            rcases tryIpv4_ok hh3 with h4 | ⟨rfl, _⟩
+            · obtain ⟨n, _, rfl⟩ := normalizeIpv4_ok h4
+              have := ipv4Compressed_chars n x hx; omega
+            · exact hn2 x hx
+
+/-- **`HostPrintable` discharged.**  Relative to `PrintParams` (no parameter introduces a control
+character or space), the host name of every network-scheme result holds no character ≤ 0x20. -/
+theorem host_printable (c : Cfg) (hp : PrintParams c) (s : Str) (i : URLInfo)
+    (h : parse c s = .ok i) (hnet : (netScheme? i.scheme).isSome = true) :
+    ∀ hn, i.hostname = some hn → ∀ x ∈ hn, 0x20 < x := by
+  unfold parse at h
+  simp only at h
+  split at h
+  · cases h
+  · rename_i hc0
+    have hurl : NoCtl (strip s) := by
+      intro x hx
+      have : ¬ (x ≤ 0x1f) := by
+        intro hle
+        apply hc0
+        exact List.any_eq_true.mpr ⟨x, hx, by simpa using hle⟩
+      omega
+    split at h
+    · cases h
+    · rename_i s2 hs2
+      have hrem : NoCtl s2.2 := schemeSplit_noctl hp hurl (sc := s2.1) (rem := s2.2) (by rw [hs2])
+      split at h
+      · cases h; simp only at hnet; rename_i hb; rw [hb] at hnet; cases hnet
+      · obtain ⟨host, hn, port0, hhn, hph, hsub⟩ := parseNet_host h
+        obtain ⟨arg, harg, hasub⟩ := parseHost_arg_sub hph
+        have hargn : NoCtl arg := fun x hx => hrem x (hsub x (hasub x hx))
+        intro hn' hh' x hx
+        rw [hhn] at hh'; cases hh'
+        exact parseHostname_print hp hargn harg x hx
 
 /-! ## Property theorems -/
 
@@ -1054,7 +1307,7 @@ theorem norm_reparse (c c' : Cfg) (hp : ReparseParams c c') (s : Str) (i : URLIn
   | none => rw [hns] at hnet; cases hnet
   | some p =>
     obtain ⟨sch, dp⟩ := p
-    obtain ⟨j, hj, _, h1, h2, h3, h4, h5⟩ := norm_main c c' hp s i sch dp n hparse hns hurl hprint
+    obtain ⟨⟨j, hj, _, h1, h2, h3, h4, h5⟩, _⟩ := norm_main c c' hp s i sch dp n hparse hns hurl hprint
     exact ⟨j, hj, by rw [h1, h2, h3, h4, h5]⟩
 
 /-- **C10, idempotence.**  Normalising the normal form changes nothing: `parse(n).url = n`. -/
@@ -1066,7 +1319,7 @@ theorem norm_idem (c c' : Cfg) (hp : ReparseParams c c') (s : Str) (i : URLInfo)
   | none => rw [hns] at hnet; cases hnet
   | some p =>
     obtain ⟨sch, dp⟩ := p
-    obtain ⟨j, hj, hu, _⟩ := norm_main c c' hp s i sch dp n hparse hns hurl hprint
+    obtain ⟨⟨j, hj, hu, _⟩, _⟩ := norm_main c c' hp s i sch dp n hparse hns hurl hprint
     exact ⟨j, hj, hu⟩
 
 /-- the codec hypotheses hold for the model's UTF-8 encoder -/
@@ -1088,7 +1341,40 @@ theorem C10_full_of_params : (∀ (c c' : Cfg), ReparseParams c c' →
   | none => rw [hns] at hnet; cases hnet
   | some p =>
     obtain ⟨sch, dp⟩ := p
-    obtain ⟨j, hj, hu, h1, h2, h3, h4, h5⟩ := norm_main c c' hp s i sch dp n hparse hns hurl hprint
+    obtain ⟨⟨j, hj, hu, h1, h2, h3, h4, h5⟩, _⟩ := norm_main c c' hp s i sch dp n hparse hns hurl hprint
     exact ⟨j, hj, hu, by rw [h1, h2, h3, h4, h5]⟩
+
+/-- **C10, character class of the whole normal form.**  Every character of `n` is ASCII and above
+the space (no white space, no C0 control; DEL can occur in a host name only). -/
+theorem norm_ascii (c c' : Cfg) (hp : ReparseParams c c') (hq : PrintParams c) (s : Str) (i : URLInfo) (n : Str)
+    (hparse : parse c s = .ok i) (hnet : (netScheme? i.scheme).isSome = true) (hurl : i.url = .ok n) :
+    ∀ x ∈ n, 0x20 < x ∧ x < 0x80 := by
+  cases hns : netScheme? i.scheme with
+  | none => rw [hns] at hnet; cases hnet
+  | some p =>
+    obtain ⟨sch, dp⟩ := p
+    exact (norm_main c c' hp s i sch dp n hparse hns hurl (host_printable c hq s i hparse hnet)).2
+
+/-- the whole-URL property: for every string the parser accepts with a network scheme, the
+normal form is accepted again, is its own normal form, and gives back scheme, host name, port,
+path and query — for all parameters satisfying the named hypotheses -/
+def C10_full : Prop :=
+  ∀ (c c' : Cfg), ReparseParams c c' → PrintParams c →
+    ∀ (s : Str) (i : URLInfo) (n : Str), parse c s = .ok i → (netScheme? i.scheme).isSome = true →
+      i.url = .ok n →
+      ∃ j, parse c' n = .ok j ∧ j.url = .ok n ∧
+        (j.scheme, j.hostname, j.port, j.path, j.query) = (i.scheme, i.hostname, i.port, i.path, i.query)
+
+/-- **C10, composed.**  `C10_full` holds. -/
+theorem C10_full_holds : C10_full := by
+  intro c c' hp hq s i n hparse hnet hurl
+  exact C10_full_of_params c c' hp s i n hparse hnet hurl (host_printable c hq s i hparse hnet)
+
+-- non-vacuity: the hypotheses are satisfiable (UTF-8, parameters that refuse everything / never fire)
+-- and the statement speaks about real parses
+example : (parse cfgT [72, 84, 84, 80, 58, 47, 47, 85, 58, 80, 64, 48, 88, 55, 102, 48, 48, 48, 48, 48, 49, 58, 56, 48, 47, 97, 47, 46, 47, 37, 97, 70, 63, 113, 32, 120]).bind URLInfo.url
+    = .ok [104, 116, 116, 112, 58, 47, 47, 85, 58, 80, 64, 49, 50, 55, 46, 48, 46, 48, 46, 49, 47, 97, 47, 37, 65, 70, 63, 113, 43, 120] := by decide
+example : (parse cfgT [104, 116, 116, 112, 58, 47, 47, 85, 58, 80, 64, 49, 50, 55, 46, 48, 46, 48, 46, 49, 47, 97, 47, 37, 65, 70, 63, 113, 43, 120]).bind URLInfo.url
+    = .ok [104, 116, 116, 112, 58, 47, 47, 85, 58, 80, 64, 49, 50, 55, 46, 48, 46, 48, 46, 49, 47, 97, 47, 37, 65, 70, 63, 113, 43, 120] := by decide
 
 end Wpull.Url
